@@ -504,15 +504,17 @@ where
             x_half - sigma * r
         };
         let f_itp = f(x_itp);
-        if f_itp.is_sign_positive() {
+        if f_itp.is_zero() {
+            // Landed exactly on a root. This has to be tested first: a zero has a sign bit
+            // too, so the sign tests below would never let this branch run.
+            left = x_itp;
+            right = x_itp;
+        } else if f_itp.is_sign_positive() {
             right = x_itp;
             f_right = f_itp;
-        } else if f_itp.is_sign_negative() {
-            left = x_itp;
-            f_left = f_itp;
         } else {
             left = x_itp;
-            right = x_itp;
+            f_left = f_itp;
         }
         j += 1;
     }
